@@ -227,6 +227,8 @@ class Harness:
         self.gate = gate
         self.wake_pending = False
         self.waited = set()
+        self.cancelled = set()
+        self.cancellable = False     # explore cancellation of started, unfinished calls
         self.pending = []            # [(kind, future)] suspended slow operations (at most one while the lock discipline holds)
         self.events_log = []         # observations since the last take()
         self.violations = []         # monitor: effects outside the lock etc.
@@ -312,7 +314,11 @@ class Harness:
             self._check_owner(kind)
         fut = self.loop.create_future()
         self.pending.append((kind, fut))
-        await fut
+        try:
+            await fut
+        finally:
+            if (kind, fut) in self.pending:
+                self.pending.remove((kind, fut))
 
     def take(self):
         out, self.events_log = self.events_log, []
@@ -413,6 +419,12 @@ class Harness:
         self.lock.do_wake()
         self.settle()
 
+    def cancel(self, j):
+        """the task running call j is cancelled from outside (wait_for timeout, shutdown, ...)"""
+        self.cancelled.add(j)
+        self.tasks[j].cancel()
+        self.settle()
+
     def close(self):
         self.state_mod.asyncos = self.saved_os
         for c in self.coros.values():
@@ -443,10 +455,11 @@ def make_manager(cache=None):
     return TransferManager(settings, bus, um, AsyncMock(), network, cache=cache)
 
 
-def run_schedule(tmpdir, state, direction, cfg, calls, events, gate=True, slow_listener=False):
+def run_schedule(tmpdir, state, direction, cfg, calls, events, gate=True, slow_listener=False, cancellable=False):
     """Run one schedule on the real code.  Returns dict(per_event=[...obs...], final=snapshot, done=bool,
     enabled=..., violations=[...])"""
     h = Harness(tmpdir, state, direction, cfg, gate=gate, slow_listener=slow_listener)
+    h.cancellable = cancellable
     try:
         return drive(h, calls, events)
     finally:
@@ -470,6 +483,8 @@ def drive(h: Harness, calls, events):
             h.step(newest=True)
         elif e[0] == 'W':
             h.wake()
+        elif e[0] == 'X':
+            h.cancel(e[1])
         obs = h.take()
         per_event.append(obs)
         if any(o[0] == 'R' and o[2] == ('ret', False) for o in obs):
@@ -477,7 +492,7 @@ def drive(h: Harness, calls, events):
     started = set(h.tasks)
     done = all(j in h.results for j in range(len(calls)))
     return {'per_event': per_event, 'final': h.snapshot(), 'extra': h.extra_snapshot(), 'done': done, 'rank': rank,
-            'cap': dict(h.cap), 'violations': list(h.violations), 'refusals': refusal_snaps,
+            'cap': dict(h.cap), 'violations': list(h.violations), 'refusals': refusal_snaps, 'cancelled': sorted(h.cancelled),
             'enabled': enabled_events(h, calls, rank, started), 'results': dict(h.results)}
 
 
@@ -493,8 +508,12 @@ def enabled_events(h: Harness, calls, rank, started):
         en.append(('T',))
     if len(h.pending) >= 2:
         en.append(('U',))
-    if h.wake_pending:
+    if h.wake_pending and h.lock is not None and h.lock._waiters:
         en.append(('W',))
+    if h.cancellable:
+        for j in sorted(started):
+            if j not in h.results and j not in h.cancelled:
+                en.append(('X', j))
     return en
 
 
@@ -509,7 +528,10 @@ def encode_obs(obs, rank, listeners=False) -> list:
                 out += [0, sv[o[1]], sv[o[2]]]
         else:
             r = o[2]
-            out += [1, rank[o[1]], 1 if r == ('ret', True) else (0 if r == ('ret', False) else 7)]
+            if r == ('exc', 'CancelledError'):
+                out += [3, rank[o[1]]]
+            else:
+                out += [1, rank[o[1]], 1 if r == ('ret', True) else (0 if r == ('ret', False) else 7)]
     return out
 
 
@@ -546,9 +568,11 @@ def sched_number(events) -> int:
             digits.append(2 + rank[e[1]])
         elif e[0] == 'T':
             digits.append(5)
+        elif e[0] == 'X':
+            digits += [7, rank[e[1]] + 1]
         else:
             digits.append(6)
-    assert len(digits) <= 80
+    assert len(digits) <= 120
     for d in reversed(digits):
         n = n * 8 + d
     return n
